@@ -67,6 +67,7 @@ class Sim:
         self.frozen = set()  # Recs a scenario hook holds back
         self.force_next = None  # Rec that must run next if enabled (set by a hook: enumerated expiry position)
         self.hooks = []  # callables(sim, rec, kind) run at yield points of the current thread (expiry forcing etc.)
+        self.noyield = 0  # > 0 while the current thread is inside a section of the simulator itself that must not switch
         self.interleave = hashlib.sha256()
         if policy[0] == 'pct':
             self._pct_points = sorted(rng.randrange(1, max(2, policy[2])) for _ in range(max(0, policy[1] - 1)))
@@ -207,7 +208,7 @@ class Sim:
 
     def yield_point(self, kind='y'):
         me = self.me()
-        if me is None or self.cur is not me or me.state == 'done':
+        if me is None or self.cur is not me or me.state == 'done' or self.noyield:
             return
         if self.aborted:
             if me is self.main:
@@ -406,9 +407,15 @@ class _SimThreadMixin:
 
         self.run = run
         sim.event('spawn', rec.name)
-        threading.Thread.start(self)
-        while rec.ident is None:  # real, brief: the child registers itself and parks
-            _real_time.sleep(0)
+        # no switch point inside the real Thread.start: a garbage-collected object's __del__ (e.g. Pool.__del__, armed
+        # Python code) may run right here, and parking the starter in the middle of the start handshake deadlocks
+        sim.noyield += 1
+        try:
+            threading.Thread.start(self)
+            while rec.ident is None:  # real, brief: the child registers itself and parks
+                _real_time.sleep(0)
+        finally:
+            sim.noyield -= 1
         sim.yield_point('spawn')
 
     def join(self, timeout=None):
